@@ -31,6 +31,7 @@ type Failure struct {
 	Scenario json.RawMessage `json:"scenario"`
 	Choices  []int           `json:"choices"`
 	Stable   bool            `json:"stable"` // reproduced identically on 5 replays
+	Order    int64           `json:"order"`  // index of the scenario in enumeration order (simplest first)
 }
 
 // Report is what one shard (or the merged run) measured.
@@ -53,6 +54,7 @@ type Report struct {
 	stateSet    map[uint64]struct{}
 	sigSeen     map[string]bool
 	deadline    time.Time
+	curIdx      int64
 	Tier        string `json:"-"`
 	mu          sync.Mutex
 }
@@ -131,7 +133,7 @@ func (r *Report) Fail(sc any, sig, msg string, choices []int) {
 	}
 	r.sigSeen[sig] = true
 	b, _ := json.Marshal(sc)
-	r.Failures = append(r.Failures, Failure{Sig: sig, Msg: msg, Scenario: b, Choices: choices})
+	r.Failures = append(r.Failures, Failure{Sig: sig, Msg: msg, Scenario: b, Choices: choices, Order: r.curIdx})
 }
 
 // Harness is what a property check provides.
@@ -253,6 +255,7 @@ func runShard(h *Harness, tier string, i, n int, seed int64) *Report {
 	}
 	h.Scenarios(tier, func(sc any) bool {
 		mine := (idx+rot)%n == i
+		rep.curIdx = int64(idx)
 		idx++
 		if !mine {
 			return true
@@ -318,6 +321,9 @@ func parent(h *Harness, tier string, seed int64) int {
 	vd := verifDir()
 	work := filepath.Join(vd, ".work", strings.ToLower(h.ID))
 	os.MkdirAll(work, 0o755)
+	if part := os.Getenv("VERIF_PART"); part != "" {
+		os.MkdirAll(filepath.Join(work, part), 0o755)
+	}
 	n := runtime.NumCPU()
 	if h.Workers != nil {
 		if w := h.Workers(tier); w > 0 {
@@ -332,11 +338,11 @@ func parent(h *Harness, tier string, seed int64) int {
 		wg.Add(1)
 		go func(i int) {
 			defer wg.Done()
-			outf := filepath.Join(work, fmt.Sprintf("shard-%d.json", i))
+			outf := filepath.Join(work, os.Getenv("VERIF_PART"), fmt.Sprintf("shard-%d.json", i))
 			os.Remove(outf)
 			cmd := exec.Command(self, "-tier", tier, "-shard", fmt.Sprintf("%d/%d", i, n), "-out", outf)
 			cmd.Env = append(os.Environ(), "VERIF_SEED="+strconv.FormatInt(seed, 10))
-			logf, _ := os.Create(filepath.Join(work, fmt.Sprintf("shard-%d.log", i)))
+			logf, _ := os.Create(filepath.Join(work, os.Getenv("VERIF_PART"), fmt.Sprintf("shard-%d.log", i)))
 			cmd.Stdout, cmd.Stderr = logf, logf
 			err := cmd.Run()
 			logf.Close()
@@ -396,6 +402,12 @@ func parent(h *Harness, tier string, seed int64) int {
 			if !m.sigSeen[f.Sig] {
 				m.sigSeen[f.Sig] = true
 				m.Failures = append(m.Failures, f)
+				continue
+			}
+			for k := range m.Failures {
+				if m.Failures[k].Sig == f.Sig && f.Order < m.Failures[k].Order {
+					m.Failures[k] = f
+				}
 			}
 		}
 	}
@@ -418,7 +430,7 @@ func parent(h *Harness, tier string, seed int64) int {
 	os.MkdirAll(filepath.Join(vd, "replays"), 0o755)
 	for _, f := range m.Failures {
 		if !f.Stable {
-			fmt.Fprintf(w, "HARNESS-NONDETERMINISM property=%s sig=%s (not reported as violation)\n", h.ID, f.Sig)
+			fmt.Fprintf(w, "HARNESS-NONDETERMINISM property=%s sig=%s (not reported as violation)\n  %s\n", h.ID, f.Sig, f.Msg)
 			continue
 		}
 		if what, ok := known[f.Sig]; ok {
@@ -428,7 +440,7 @@ func parent(h *Harness, tier string, seed int64) int {
 		}
 		violations++
 		rp := filepath.Join(vd, "replays", fmt.Sprintf("%s-%s.json", h.ID, sanitize(f.Sig)))
-		writeJSON(rp, map[string]any{"property": h.ID, "sig": f.Sig, "msg": f.Msg, "scenario": f.Scenario, "choices": f.Choices})
+		writeJSON(rp, map[string]any{"property": h.ID, "part": os.Getenv("VERIF_PART"), "sig": f.Sig, "msg": f.Msg, "scenario": f.Scenario, "choices": f.Choices})
 		fmt.Fprintf(w, "VIOLATION property=%s replay=%s\n  sig=%s\n  %s\n", h.ID, rp, f.Sig, f.Msg)
 	}
 	exhaustive := len(m.CapsHit) == 0 && len(m.Incidents) == 0
@@ -464,7 +476,12 @@ func parent(h *Harness, tier string, seed int64) int {
 	}
 	os.MkdirAll(filepath.Join(vd, "evidence"), 0o755)
 	b, _ := json.MarshalIndent(ev, "", " ")
-	os.WriteFile(filepath.Join(vd, "evidence", h.ID+".json"), b, 0o644)
+	evPath := filepath.Join(vd, "evidence", h.ID+".json")
+	if part := os.Getenv("VERIF_PART"); part != "" {
+		// one of several builds of the same check: the driver merges the parts
+		evPath = filepath.Join(work, "evidence-"+part+".json")
+	}
+	os.WriteFile(evPath, b, 0o644)
 	fmt.Fprintf(w, "%s %s: scenarios=%d executions=%d transitions=%d outcomes=%d states=%d violations=%d known=%d exhaustive=%v caps=%v incidents=%v wall=%.1fs\n",
 		h.ID, tier, m.Scenarios, m.Executions, m.Transitions, len(m.outSet), m.States, violations, len(knownSeen), exhaustive, m.CapsHit, m.Incidents, time.Since(start).Seconds())
 	w.Flush()
